@@ -1,0 +1,8 @@
+//go:build !verif
+
+package future
+
+import "github.com/csgura/fp"
+
+// verifSpawn is a no-op unless the package is built with the verif tag.
+func verifSpawn(r fp.Runnable) bool { return false }
